@@ -576,6 +576,7 @@ pub fn property() -> Property {
     Property {
         id: "C07",
         subs: vec![sub::<Counts>()],
+        fuzz: vec![],
         assumptions: vec![
             "exactly representable weights (dyadics, small integers, residues) so that every comparison is ==",
             "RationalSemiring weights are naturals built from one()/zero() (private field)",
